@@ -10,6 +10,7 @@ import (
 	"flag"
 	"fmt"
 	"log"
+	"math/rand"
 	"net"
 	"regexp"
 	"strings"
@@ -138,7 +139,20 @@ func runAcceptSeq(seq string) (obs string, problems []string) {
 			case <-time.After(3 * time.Second):
 				problems = append(problems, "Serve did not return after a permanent error")
 			}
-		case 'S', 'Z':
+		case 'S', 'Z', 'W':
+			if tok == 'W' {
+				// a listener whose Close is slow (it joins its accept machinery): Accept fails at once, Close returns
+				// only when Serve has returned (or after 300 ms) - Serve must still see that Shutdown caused the failure
+				sc := make(chan struct{})
+				lis.mu.Lock()
+				lis.slowClose = sc
+				lis.mu.Unlock()
+				go func() {
+					err := <-served
+					served <- err
+					close(sc)
+				}()
+			}
 			if tok == 'Z' {
 				lis.mu.Lock()
 				lis.tempAfterClose = true // a "stoppable listener": Close makes Accept fail with a temporary (timeout) error
@@ -225,17 +239,17 @@ func suiteAccept(args []string) {
 	fs.Parse(args)
 	cw := newCaseWriter(*dir)
 	rep := &Report{Suite: "accept", Seed: *seed, Distribution: map[string]int{}}
-	rep.Rule = "every sequence over {T temporary error, C connection, P permanent error, S Shutdown, Z Shutdown on a listener whose Accept then fails with a TEMPORARY error} up to the length bound (nothing follows P, S or Z), each run against the real Serve; all distinct; non-trivial = contains at least one T or C"
+	rep.Rule = "every sequence over {T temporary error, C connection, P permanent error, S Shutdown, Z Shutdown on a listener whose Accept then fails with a TEMPORARY error, W Shutdown on a listener whose Close releases Accept at once and returns late} up to the length bound (nothing follows P, S or Z), each run against the real Serve; all distinct; non-trivial = contains at least one T or C"
 	var seqs []string
 	var gen func(prefix string)
 	gen = func(prefix string) {
 		if prefix != "" {
 			seqs = append(seqs, prefix)
 		}
-		if len(prefix) == *maxLen || strings.HasSuffix(prefix, "P") || strings.HasSuffix(prefix, "S") || strings.HasSuffix(prefix, "Z") {
+		if len(prefix) == *maxLen || strings.HasSuffix(prefix, "P") || strings.HasSuffix(prefix, "S") || strings.HasSuffix(prefix, "Z") || strings.HasSuffix(prefix, "W") {
 			return
 		}
-		for _, t := range "TCPSZ" {
+		for _, t := range "TCPSZW" {
 			gen(prefix + string(t))
 		}
 	}
@@ -417,6 +431,74 @@ func suiteDiscover(args []string) {
 		rep.Nontrivial++
 		rep.Distribution[fmt.Sprintf("wide:sup=%d,offer=%d", len(pr.sup), len(pr.offer))]++
 	}
+	// several Discover Versions items of ONE request (same Server, same RequestContext, replies all kept
+	// alive until the batch is encoded): every reply, read after the last call, is still the answer to
+	// its own offer, and no reply shares memory with another reply or with the configuration
+	func() {
+		rng := rand.New(rand.NewSource(*seed + 77))
+		nb := 400
+		if *maxSup >= 3 {
+			nb = 3000
+		}
+		for b := 0; b < nb; b++ {
+			sup := sups[rng.Intn(len(sups))]
+			if len(sup) == 0 && rng.Intn(4) != 0 {
+				sup = universe[:1+rng.Intn(len(universe))]
+			}
+			k := 2 + rng.Intn(3)
+			cfgCopy := append([]kmip.ProtocolVersion(nil), sup...)
+			s := &kmip.Server{SupportedVersions: cfgCopy}
+			ctx := &kmip.RequestContext{}
+			var batchOffers [][]kmip.ProtocolVersion
+			var replies []*kmip.DiscoverVersionsResponse
+			for i := 0; i < k; i++ {
+				offer := offers[rng.Intn(len(offers))]
+				batchOffers = append(batchOffers, offer)
+				item := &kmip.RequestBatchItem{Operation: kmip.OPERATION_DISCOVER_VERSIONS, RequestPayload: kmip.DiscoverVersionsRequest{ProtocolVersions: append([]kmip.ProtocolVersion(nil), offer...)}}
+				resp, err := s.VerifDiscoverVersions(ctx, item)
+				if r, ok := resp.(kmip.DiscoverVersionsResponse); ok && err == nil {
+					replies = append(replies, &r)
+				} else {
+					replies = append(replies, nil)
+				}
+			}
+			texts := make([]string, k)
+			for i, r := range replies {
+				if r != nil {
+					texts[i] = pvText(r.ProtocolVersions)
+				}
+			}
+			alias := make([]string, k)
+			for i := range alias {
+				alias[i] = "fresh"
+			}
+			for i, r := range replies {
+				if r == nil {
+					continue
+				}
+				for x := range r.ProtocolVersions {
+					r.ProtocolVersions[x] = kmip.ProtocolVersion{Major: 9, Minor: 9}
+				}
+				for j, q := range replies {
+					if j > i && q != nil && pvText(q.ProtocolVersions) != texts[j] {
+						alias[i], alias[j] = "aliased", "aliased"
+					}
+				}
+				if pvText(s.SupportedVersions) != pvText(sup) {
+					alias[i] = "aliased"
+				}
+			}
+			for i := range replies {
+				obs := "error"
+				if replies[i] != nil {
+					obs = texts[i] + "|" + alias[i]
+				}
+				cw.add("discover", "discover "+pvText(sup)+" | "+pvText(batchOffers[i]), obs)
+				rep.Nontrivial++
+			}
+			rep.Distribution[fmt.Sprintf("batch:items=%d", k)]++
+		}
+	}()
 	// defaulting: an empty configuration becomes a fresh copy of 1.4, 1.3, 1.2, 1.1
 	func() {
 		before := pvText(kmip.DefaultSupportedVersions)
